@@ -17,6 +17,15 @@ theorem new_coh' (u : SFUser α ε) (mode : GradMode) (x0 lb ub : Vec α) :
 /-- log entries that are not evaluations of the stop thresholds -/
 def NotThresh (c : Call α) : Prop := c.kind ≠ .ftarget ∧ c.kind ≠ .gtol
 
+/-- the only callables the loop invokes: objective, gradient, update function, callback -/
+def LoopCall (c : Call α) : Prop :=
+  c.kind = .F ∨ c.kind = .G ∨ c.kind = .update ∨ c.kind = .callback
+
+omit [LinearOrder α] [Add α] [Sub α] [Mul α] [Div α] [Neg α] [OfNat α 0] [OfNat α 1]
+  [FloatLike α] in
+theorem LoopCall.notThresh {c : Call α} (h : LoopCall c) : NotThresh c := by
+  rcases h with h | h | h | h <;> simp [NotThresh, h]
+
 /-- what never changes once the loop has started -/
 structure SameEnv (s s' : St α) : Prop where
   gtol : s'.gtol = s.gtol
@@ -49,19 +58,24 @@ structure Pass (u : User α ε) (c : Cfg α) (s s' : St α) (flow : Flow) : Prop
   nfev_ge : s.sf.nfev ≤ s'.sf.nfev
   nfev_le : s.sf.mode = .callable →
     s'.sf.nfev ≤ s.sf.nfev + min c.maxls (c.maxfun - s.sf.nfev) + 1
-  log : LogExt NotThresh s.sf.log s'.sf.log
+  log : LogExt LoopCall s.sf.log s'.sf.log
+
+omit [LinearOrder α] [Add α] [Sub α] [Mul α] [Div α] [Neg α] [OfNat α 0] [OfNat α 1]
+  [FloatLike α] in
+theorem evalAt_loopCall {u : SFUser α ε} {m : GradMode} {x : Vec α} {c : Call α}
+    (h : EvalAt u m x c) : LoopCall c := by
+  rcases h.1 with h | h <;> simp [LoopCall, h]
 
 omit [LinearOrder α] [Add α] [Sub α] [Mul α] [Div α] [Neg α] [OfNat α 0] [OfNat α 1]
   [FloatLike α] in
 theorem evalAt_notThresh {u : SFUser α ε} {m : GradMode} {x : Vec α} {c : Call α}
-    (h : EvalAt u m x c) : NotThresh c := by
-  rcases h.1 with h | h <;> simp [NotThresh, h]
+    (h : EvalAt u m x c) : NotThresh c := (evalAt_loopCall h).notThresh
 
 omit [Div α] [Neg α] [OfNat α 1] [FloatLike α] in
-theorem lsCall_notThresh {u : User α ε} {m : GradMode} {x0 d lb ub : Vec α} {c : Call α}
-    (h : LSCall u m x0 d lb ub c) : NotThresh c := by
+theorem lsCall_loopCall {u : User α ε} {m : GradMode} {x0 d lb ub : Vec α} {c : Call α}
+    (h : LSCall u m x0 d lb ub c) : LoopCall c := by
   obtain ⟨_, h⟩ := h
-  exact evalAt_notThresh h
+  exact evalAt_loopCall h
 
 theorem iterFail_pass (u : User α ε) (c : Cfg α) (s s' : St α) (flow : Flow)
     (hi : Inv4 u s) (hs : s.success = false) (h : iterFail s = (s', flow)) :
@@ -120,7 +134,7 @@ structure AfterEval (u : User α ε) (s s' : St α) (stop : Bool) : Prop where
   nit : s'.nit = s.nit
   nfev : s'.sf.nfev = s.sf.nfev
   cbs : s'.cbStates = s.cbStates
-  log : LogExt NotThresh s.sf.log s'.sf.log
+  log : LogExt LoopCall s.sf.log s'.sf.log
   cont : stop = false → s'.task = s.task ∧ s'.success = s.success
   halt : stop = true → s'.success = true ∧
     ((s'.task = .target ∧ targetReached (s'.f / s'.sf.scale) s'.ftarget = true) ∨ s'.task = .ftol)
@@ -140,9 +154,9 @@ theorem afterEval_sum (u : User α ε) (c : Cfg α) (s s' : St α) (f0Old : α) 
       obtain ⟨s1, stop1⟩ := st
       have hsp := stopTests_spec hst
       obtain ⟨hsf, hnit, hgt, hft, hf, hcb, hcont, hhalt⟩ := hsp
-      have hlog : LogExt NotThresh s.sf.log s1.sf.log := by
+      have hlog : LogExt LoopCall s.sf.log s1.sf.log := by
         rw [hsf]
-        exact LogExt.single _ _ (by simp [NotThresh])
+        exact LogExt.single _ _ (by simp [LoopCall])
       have hcoh1 : Coh u.toSFUser s1.sf := by
         rw [hsf]; simpa [St.logCall, Coh] using hc
       cases stop1 with
@@ -165,7 +179,7 @@ theorem afterEval_sum (u : User α ε) (c : Cfg α) (s s' : St α) (f0Old : α) 
         subst this
         refine ⟨by simpa [St.logCall, Coh] using hc, ⟨rfl, rfl, rfl, rfl⟩, rfl, rfl, rfl, ?_,
           fun _ => ⟨rfl, rfl⟩, by simp⟩
-        exact LogExt.single _ _ (by simp [NotThresh])
+        exact LogExt.single _ _ (by simp [LoopCall])
   · simp only [pure, Except.pure] at h
     injection h with h
     have hsp := stopTests_spec h
@@ -187,7 +201,7 @@ structure AfterCb (u : User α ε) (s s' : St α) : Prop where
   nit : s'.nit = s.nit
   nfev : s'.sf.nfev = s.sf.nfev
   f_eq : s'.f = s.f
-  log : LogExt NotThresh s.sf.log s'.sf.log
+  log : LogExt LoopCall s.sf.log s'.sf.log
   alt : (s'.task = s.task ∧ s'.success = s.success ∧
           (∀ cb ∈ s.cbStates, cb ∈ s'.cbStates)) ∨
         (s'.task = .userCallback ∧ s'.success = true ∧
@@ -203,8 +217,8 @@ theorem doCallback_sum (u : User α ε) (c : Cfg α) (s s' : St α)
     · rename_i b hb
       simp only [pure, Except.pure] at h
       injection h with h
-      have hlog : LogExt NotThresh s.sf.log (s.logCall .callback s.x).sf.log :=
-        LogExt.single _ _ (by simp [NotThresh])
+      have hlog : LogExt LoopCall s.sf.log (s.logCall .callback s.x).sf.log :=
+        LogExt.single _ _ (by simp [LoopCall])
       cases b with
       | true =>
         simp only [if_true] at h
@@ -239,8 +253,8 @@ theorem iterStep_pass (u : User α ε) (c : Cfg α) (s s' : St α) (d : Vec α) 
     · rename_i r hr
       obtain ⟨s1, stop⟩ := r
       have ae := afterEval_sum u c _ s1 f0Old stop (by simpa using es.coh) hr
-      have hlog1 : LogExt NotThresh s.sf.log s1.sf.log :=
-        LogExt.trans (es.log.mono (fun _ h => evalAt_notThresh h)) (by simpa using ae.log)
+      have hlog1 : LogExt LoopCall s.sf.log s1.sf.log :=
+        LogExt.trans (es.log.mono (fun _ h => evalAt_loopCall h)) (by simpa using ae.log)
       have henv1 : SameEnv s s1 :=
         ⟨by simpa using ae.env.gtol, by simpa using ae.env.ftarget,
          by rw [ae.env.scale]; simpa using es.scale, by rw [ae.env.mode]; simpa using es.mode⟩
@@ -335,7 +349,7 @@ theorem iterBody_pass (u : User α ε) (o : Oracles α δ) (c : Cfg α) (s s' : 
     have hmid : Inv4 u { s with sf := sfL, olog := olog } :=
       ⟨ls.coh, hi.succ_task, hi.task_succ, fun ht => by have := hi.target_true ht; simpa [ls.scale] using this,
        hi.cb_true, hi.abn⟩
-    have hlogL : LogExt NotThresh s.sf.log sfL.log := ls.log.mono (fun _ h => lsCall_notThresh h)
+    have hlogL : LogExt LoopCall s.sf.log sfL.log := ls.log.mono (fun _ h => lsCall_loopCall h)
     cases stp? with
     | none =>
       simp only [pure, Except.pure] at h
@@ -375,7 +389,7 @@ structure LoopSum (u : User α ε) (c : Cfg α) (s s' : St α) : Prop where
   nit_le : s'.nit ≤ max c.maxiter s.nit
   nfev_ge : s.sf.nfev ≤ s'.sf.nfev
   nfev_le : s.sf.mode = .callable → s'.sf.nfev ≤ max c.maxfun s.sf.nfev + 1
-  log : LogExt NotThresh s.sf.log s'.sf.log
+  log : LogExt LoopCall s.sf.log s'.sf.log
 
 theorem mainLoop_sum (u : User α ε) (o : Oracles α δ) (c : Cfg α) :
     ∀ (fuel : Nat) (s s' : St α), Inv4 u s → c.maxiter ≤ fuel + s.nit →
